@@ -1,6 +1,6 @@
 (* Proofs/RewireSpec.v — the engine of Model/Rewire.v is the execution of the swap table. *)
 From Coq Require Import ZArith List Arith Bool QArith.
-From BCT Require Import Base.Mat Base.ListX Model.Rewire Model.RewireSpec.
+From BCT Require Import Base.Mat Base.ListX Model.Rewire Model.RewireSpec Model.RewireBin.
 Import ListNotations.
 Open Scope Z_scope.
 
@@ -116,3 +116,23 @@ Lemma spec_of_columns rt :
   ss_halved (spec_of rt) = (is_latt rt && is_und rt)%bool /\
   ss_latt (spec_of rt) = is_latt rt /\ ss_lattice (spec_of rt) = is_latt rt /\ ss_conn (spec_of rt) = is_conn rt.
 Proof. repeat split; reflexivity. Qed.
+
+(* randomizer_bin_und: its swap is the execution of its write table *)
+Theorem rbu_swap_is_table R a b c d : rbu_swap R a b c d = exec_cwrites (mkenv a b c d) rbu_writes_std R.
+Proof. reflexivity. Qed.
+
+(* ... and its mate search reads the table's cell tests: the common non-neighbours of a and b, and the value a mate has *)
+Theorem rbu_holes_is_table n R a b c d :
+  common_holes n R a b = filter (fun x => eval_tests (mkenv a b c d) R x rbu_tests_std) (seq 0 n).
+Proof.
+  unfold common_holes. apply filter_ext. intros x. unfold eval_tests, rbu_tests_std. cbn [forallb fst snd mkenv].
+  rewrite andb_true_r. reflexivity.
+Qed.
+Theorem rbu_mates_is_table R h :
+  mates R h = flat_map (fun u => flat_map (fun v => if Z.eqb (R u v) rbu_mate_std then [(u, v)] else []) h) h.
+Proof. reflexivity. Qed.
+Theorem rbu_is_table R a b c d :
+  rbu_swap R a b c d = exec_cwrites (mkenv a b c d) rbu_writes_std R /\
+  (forall n, common_holes n R a b = filter (fun x => eval_tests (mkenv a b c d) R x rbu_tests_std) (seq 0 n)) /\
+  (forall h, mates R h = flat_map (fun u => flat_map (fun v => if Z.eqb (R u v) rbu_mate_std then [(u, v)] else []) h) h).
+Proof. split; [apply rbu_swap_is_table|]. split; [intros n; apply rbu_holes_is_table|intros h; apply rbu_mates_is_table]. Qed.
